@@ -54,6 +54,7 @@ fn main() {
         Some("fireloop") => models::fireloops::cmd_fireloop(&args),
         Some("ckcrash") => models::checkpoint::cmd_ckcrash(&args),
         Some("joinrec") => models::join::cmd_joinrec(&args),
+        Some("reterec") => models::rete::cmd_reterec(&args),
         Some("kbstress") => models::kb::cmd_stress(&args),
         _ => {
             eprintln!("usage: vh replay|replay-one <model> <file> [opts]");
